@@ -3,6 +3,13 @@
          case  : <Y|U> <npub> {hex} <nmaps> {hex} <tree>
                  tree := T <kind> <nstrs> {<field> <hex>} <nkids> {<field> <n> {tree}}
          output: <shaped 0/1> <nvis> {hex} <A | R <hex>> <nall> {hex}
+     model_c20 cfg    < cfg_cases.txt one line per store configuration:
+         case  : <store 0|1> <nops> {<op> <store 0|1> <hex name> <hex key> <aux>} <nprobes> {hex}
+                 op: I A F Q (registered and published under the name: AddIdSymbol, AddSymbol[WithKey],
+                     AddFkSymbol[WithKey], AddPublicSetSymbol)  E S L (registered only: AddEntitySymbol,
+                     AddSetSymbol, AddFkSetSymbol)  M (AddMapSymbol name key)  K (MakeSymbolPublic, aux 1 =
+                     resolves through a linked store)  G (store0.GrantSymbols(store1))
+         output: <npub> {hex, sorted, distinct} <nmaps> {hex, sorted, distinct} <one 0/1 per probe>
      model_c20 table                  prints  complete <0/1>, validator <0/1>, one `gap <kind> <field> <reason>`
                                       line per broken table obligation, one `kind <name>` line per kind *)
 (* [name] (one constructor, one field) is extracted as its content, a byte list *)
@@ -42,7 +49,37 @@ let () =
     List.iter (fun ((k, f), r) ->
       Printf.printf "gap %s %s %s\n" (string_of_name k) (hex_of_bytes (name_bytes f)) (string_of_name r)) gen_gaps;
     List.iter (fun k -> Printf.printf "kind %s\n" (string_of_name k)) gen_kind_names
-  end else
+  end else if sub = "cfg" then
+    iter_lines (fun line ->
+      match split_ws line with
+      | [] -> ()
+      | l ->
+        toks := Array.of_list l; pos := 0;
+        (try
+          let st = next () = "1" in
+          let nops = int_tok () in
+          let ops = repeat nops (fun () ->
+            let op = next () in
+            let ost = next () = "1" in
+            let n = bytes_of_hex (next ()) in
+            let k = bytes_of_hex (next ()) in
+            let aux = next () in
+            match op with
+            | "I" | "A" | "F" | "Q" -> OAddPublic (ost, n, k)
+            | "E" | "S" | "L" -> OAddPrivate (ost, n)
+            | "M" -> OAddMap (ost, n, k)
+            | "K" -> OMakePublic (ost, n, aux = "1")
+            | "G" -> OGrant
+            | _ -> failwith "op") in
+          let probes = hex_list () in
+          let ((pub, maps), bits) = cfg_observe ops st probes in
+          let canon l = List.sort_uniq compare (List.map hex_of_bytes l) in
+          let pr l = Printf.printf "%d" (List.length l); List.iter (fun h -> print_string (" " ^ h)) l in
+          pr (canon pub); print_string " "; pr (canon maps); print_string " ";
+          if bits = [] then print_string "-" else List.iter (fun b -> print_string (bool_str b)) bits;
+          print_newline ()
+        with _ -> print_endline "?"))
+  else
     iter_lines (fun line ->
       match split_ws line with
       | [] -> ()
